@@ -40,8 +40,136 @@ def case_extract(c):
     return res
 
 
+class Unsupported(Exception):
+    """a declaration form outside the model's vocabulary: the case is skipped (and counted), not judged"""
+
+
+def reflect_classes(considered, start):
+    """real classes -> the decl the model works on (the inverse of grammars.source)"""
+    import typing
+    from fractions import Fraction
+
+    from geneticengine.grammar.utils import get_arguments, is_abstract
+    from geneticengine.grammar.metahandlers import floats, ints, lists, vars as mvars
+
+    def user(c):
+        return isinstance(c, type) and c.__module__ not in ("builtins", "abc", "typing") and c not in (int, float, str, bool)
+
+    order = []
+
+    def visit(c):
+        if c in order:
+            return
+        par = c.mro()[1] if len(c.mro()) > 1 else None
+        if par is not None and user(par):
+            visit(par)
+        if c not in order:
+            order.append(c)
+
+    def mentioned(t, acc):
+        if user(t):
+            acc.append(t)
+        for a in typing.get_args(t):
+            if isinstance(a, type) or typing.get_origin(a) is not None:
+                mentioned(a, acc)
+
+    todo = [start] + list(considered)
+    seen = set()
+    while todo:
+        c = todo.pop(0)
+        if c in seen:
+            continue
+        seen.add(c)
+        visit(c)
+        if not is_abstract(c):
+            for _, t in get_arguments(c):
+                acc = []
+                mentioned(t, acc)
+                todo += acc
+    idx = {c: i for i, c in enumerate(order)}
+
+    def val(v):
+        if type(v) is bool:
+            return ["bool", v]
+        if type(v) is int:
+            return ["int", v]
+        if type(v) is str:
+            return ["str", [ord(ch) for ch in v]]
+        raise Unsupported(f"option {v!r}")
+
+    def rat(x):
+        f = Fraction(x)
+        return [f.numerator, f.denominator]
+
+    def ty(t):
+        if t in (int, float, str, bool):
+            return ["base", t.__name__]
+        if t in idx:
+            return ["sym", idx[t]]
+        org = typing.get_origin(t)
+        args = typing.get_args(t)
+        if org is list and len(args) == 1:
+            return ["list", ty(args[0])]
+        if org is tuple and args and Ellipsis not in args:
+            return ["tuple", [ty(a) for a in args]]
+        if org is typing.Union:
+            return ["union", [ty(a) for a in args]]
+        if org is typing.Annotated:
+            base, mh = args[0], t.__metadata__[0]
+            if type(mh) is ints.IntRange:
+                return ["ann", ty(base), ["intrange", mh.min, mh.max]]
+            if type(mh) is ints.IntList:
+                return ["ann", ty(base), ["intlist", list(mh.elements)]]
+            if type(mh) is floats.FloatRange:
+                return ["ann", ty(base), ["floatrange", rat(mh.min), rat(mh.max)]]
+            if type(mh) is floats.FloatList:
+                return ["ann", ty(base), ["floatlist", [rat(x) for x in mh.elements]]]
+            if type(mh) is mvars.VarRange:
+                return ["ann", ty(base), ["varrange", [val(x) for x in mh.options]]]
+            if type(mh) in (lists.ListSizeBetween, lists.ListSizeBetweenWithoutListOperations):
+                return ["ann", ty(base), ["listsize", mh.min, mh.max, type(mh) is lists.ListSizeBetween]]
+            raise Unsupported(f"refinement {type(mh).__name__}")
+        raise Unsupported(f"type {t!r}")
+
+    classes = []
+    for c in order:
+        par = c.mro()[1] if len(c.mro()) > 1 else None
+        w = c.__dict__.get("__gengy__", {}).get("weight") if isinstance(c.__dict__.get("__gengy__"), dict) else None
+        if w is None and hasattr(c, "__gengy__") and "weight" in getattr(c, "__gengy__") and "__gengy__" not in c.__dict__:
+            raise Unsupported("inherited __gengy__ weight")
+        classes.append({"parent": idx[par] if par in idx else None, "abs": "abc" if is_abstract(c) else None,
+                        "fields": [] if is_abstract(c) else [ty(t) for _, t in get_arguments(c)], "weight": rat(w) if w is not None else None})
+    return order, {"classes": classes, "considered": [idx[c] for c in considered], "start": idx[start], "xdepth": False}
+
+
+def case_shipped(c):
+    """a grammar shipped with the library: the named classes of real modules, reflected into a decl for the model"""
+    import importlib
+
+    ns = {}
+    for m in c["modules"]:
+        mod = importlib.import_module(m)
+        ns.update({k: v for k, v in vars(mod).items() if isinstance(v, type)})
+    try:
+        considered = [ns[n] for n in c["considered"]] if c.get("considered") else None
+        start = ns[c["start"]]
+        if considered is None:      # every class of these modules below the start symbol's root
+            root = [b for b in start.mro() if b.__module__ not in ("builtins", "abc", "typing")][-1]
+            considered = [v for v in dict.fromkeys(ns.values()) if v is not root and issubclass(v, root) and v.__module__ in c["modules"]]
+        order, decl = reflect_classes(considered, start)
+    except Unsupported as e:
+        return {"unsupported": str(e)[:200]}
+    from geneticengine.grammar.grammar import extract_grammar
+
+    outs = [guarded(lambda: observe_grammar(extract_grammar(considered, start), order))]
+    res = {"decl": decl, "names": [k.__name__ for k in order], "extractions": outs}
+    if "ok" in outs[0]:
+        res["usable"] = guarded(lambda: observe_grammar(extract_grammar(considered, start).usable_grammar(), order))
+    return res
+
+
 def handler(p):
-    return [guarded(lambda: case_extract(c)) for c in p["cases"]]
+    return [guarded(lambda: (case_shipped if c.get("op") == "shipped" else case_extract)(c)) for c in p["cases"]]
 
 
 if __name__ == "__main__":
